@@ -216,11 +216,16 @@ def systematic_resample(
 
     positions = (np.random.random() + np.arange(size)) / size
 
-    j = 0
-    cumulative_sum = weights[0]
+    # Only entries with positive weight may be selected: start at the first one and
+    # never walk past the last one (the accumulated sum can fall short of the last
+    # position by rounding or by the tolerated normalisation error).
+    positive = np.flatnonzero(np.asarray(weights) > 0)
+    j = positive[0]
+    j_max = positive[-1]
+    cumulative_sum = weights[j]
     indeces = np.empty(size, dtype=int)
     for i in range(size):
-        while positions[i] > cumulative_sum:
+        while positions[i] > cumulative_sum and j < j_max:
             j += 1
             cumulative_sum += weights[j]
         indeces[i] = j
